@@ -102,7 +102,11 @@ func pickFaceSpecs(r *kernel.Rand) []FaceSpec {
 	nFonts := r.Range(1, 4)
 	for i := 0; i < nFonts; i++ {
 		var file string
-		switch r.Weighted([]int{5, 3, 2, 2}) {
+		switch r.Weighted([]int{5, 3, 2, 2, 1}) {
+		case 4:
+			// AAT fonts: morx (one of them with a 'feat' table mapping OpenType tags), trak, feat
+			// (not the insertion-heavy morx test fonts: shaping 200 runes with them takes a minute)
+			file = kernel.Pick(r, []string{"ot:collections/Courier.dfont", "hb:fonts/aat-morx.ttf", "ot:toys/Trak.ttf", "ot:toys/Feat.ttf"})
 		case 0:
 			file = kernel.Pick(r, corpus.Variable)
 		case 1:
@@ -111,6 +115,11 @@ func pickFaceSpecs(r *kernel.Rand) []FaceSpec {
 			file = kernel.Pick(r, corpus.Bitmap)
 		default:
 			file = kernel.Pick(r, all)
+			// the morx insertion test fonts make shaping 200 runes take a minute, for fresh and
+			// reused objects alike (§11.2): they only turn runs into wall-clock timeouts
+			for strings.Contains(file, "MORXThirty") || strings.Contains(file, "morx/Thirty") {
+				file = kernel.Pick(r, all)
+			}
 		}
 		fonts := corpus.Fonts(file)
 		if len(fonts) == 0 {
@@ -251,7 +260,19 @@ func (e *reuseEngine) Generate(seed uint64, tier string, run int) (json.RawMessa
 				op = c.Ops[kernel.Pick(rg, prev)]
 				// ... or a variant of it in which exactly one argument differs: every argument that a
 				// cache key must contain is varied alone against an otherwise identical earlier call
-				switch rg.Intn(10) {
+				switch rg.Intn(11) {
+				case 10: // same tags and values, other ranges (ranges are not part of a plan, they
+					// are applied per call)
+					fs := append([]FeatSpec(nil), op.Feats...)
+					n := len([]rune(op.Text))
+					if len(fs) == 0 {
+						fs = []FeatSpec{{Tag: kernel.Pick(rg, []string{"liga", "kern", "smcp", "dlig"}), Val: 1}}
+					}
+					for i := range fs {
+						fs[i].Start = rg.Intn(n + 1)
+						fs[i].End = fs[i].Start + 1 + rg.Intn(n+1)
+					}
+					op.Feats = fs
 				case 9: // the same features in another order, a tag given twice with different values
 					// (the later one wins: order is part of the meaning only then)
 					fs := append([]FeatSpec(nil), op.Feats...)
@@ -1234,6 +1255,9 @@ type usegWorld struct {
 	// strict: also evaluate the iteration-protocol invariants against the input itself
 	strict bool
 	kept   [][]rune // segment slices returned since the last Init
+	// docs: buffers the caller passed to earlier Init calls and still owns (with a private copy
+	// of what it wrote there): segmenting another paragraph must not have changed them
+	docs [][2][]rune
 }
 
 func (u *usegWorld) init() {}
@@ -1293,11 +1317,22 @@ func (u *usegWorld) exec(op *ReuseOp, out *kernel.Outcome, trace *uint64) *kerne
 			// typing: the previous paragraph plus a few runes
 			text = append(copyRunes(u.text), text...)
 		}
+		if op.E == 4 && len(u.docs) > 0 {
+			// the caller submits, again, a paragraph it submitted earlier: the very same slice
+			d := u.docs[op.Iter%len(u.docs)]
+			text = d[1] // what the caller wrote there
+			u.text = text
+			u.passed = d[0]
+			out.Count("probe.useg_earlier_buffer_submitted_again", 1)
+		}
 		u.text = text
-		if op.E == 2 && len(u.kept) > 0 {
+		if op.E == 4 && len(u.docs) > 0 {
+			// u.passed set above
+		} else if op.E == 2 && len(u.kept) > 0 {
 			u.passed = u.kept[op.Iter%len(u.kept)]
 			out.Count("probe.useg_returned_segment_fed_back", 1)
 		} else if op.E == 1 && cap(u.passed) >= len(text) && len(text) > 0 {
+			u.docs = nil // the caller itself overwrites a buffer it submitted earlier
 			// the caller refills the buffer it used for the previous paragraph (same backing
 			// array, often the same length) instead of allocating a new slice
 			u.passed = u.passed[:len(text)]
@@ -1330,8 +1365,10 @@ func (u *usegWorld) exec(op *ReuseOp, out *kernel.Outcome, trace *uint64) *kerne
 		if op.E == 2 {
 			// a slice handed out by the library is not the caller's to write into later on
 			u.passed = nil
+		} else if op.E == 0 && op.N != 1 && len(u.passed) > 0 && len(u.docs) < 6 {
+			u.docs = append(u.docs, [2][]rune{u.passed, copyRunes(text)})
 		}
-		if op.N == 1 && op.E != 2 { // the caller reuses its slice after Init
+		if op.N == 1 && op.E != 2 && op.E != 4 { // the caller reuses its slice after Init (not a document it keeps)
 			for i := range u.passed {
 				u.passed[i] = 'X'
 			}
